@@ -102,7 +102,7 @@ def replay(ctx, rep):
     if not lines:
         print("replay file names no failing input:", rep.get("no_longer_checks"))
         return 1
-    if lines[0].startswith("conns"):
+    if lines[0].startswith("conns") or lines[0].startswith("ctor"):
         from . import c18
         return c18.replay(ctx, rep)
     if lines[0].startswith("rcfg"):   # a housekeeping-runner history
